@@ -21,6 +21,28 @@ class ROAny(AnyNode):
     ro = property(lambda self: 42)
 
 
+class FalsyTarget(AnyNode):
+    def __bool__(self):
+        return False
+
+    def __len__(self):
+        return 0
+
+
+class EqTarget(AnyNode):
+    def __eq__(self, other):
+        return isinstance(other, AnyNode)
+
+    def __ne__(self, other):
+        return not isinstance(other, AnyNode)
+
+    def __hash__(self):
+        return 4
+
+
+KINDS = {"ro": ROAny, "falsy": FalsyTarget, "eq": EqTarget}
+
+
 def snapshot(objs):
     idx = {id(o): i for i, o in enumerate(objs)}
     return [[None if o.parent is None else idx[id(o.parent)], [idx[id(c)] for c in o.children]] for o in objs]
@@ -65,7 +87,7 @@ def impl(case):
         k = op["op"]
         try:
             if k == "new":
-                objs.append(ROAny() if op.get("kind") == "ro" else AnyNode())
+                objs.append(KINDS.get(op.get("kind"), AnyNode)())
             elif k == "setro":
                 try:
                     setattr(objs[op["i"]], "ro", vals.obj(op["v"]))
